@@ -168,9 +168,13 @@ def extract(root="/repo", overlays=None, jobs=16):
 
 def _prune_cache(keep, maxn=12, max_units=800):
     try:
+        now = time.time()
         ents = [(os.path.getmtime(os.path.join(CACHE, d)), d) for d in os.listdir(CACHE) if d not in (keep, "units")]
         ents.sort(reverse=True)
-        for _, d in ents[maxn:]:
+        # entries touched in the last 15 minutes may be in use by a check running in parallel: never prune those
+        for mt, d in ents[maxn:]:
+            if now - mt < 900:
+                continue
             p = os.path.join(CACHE, d)
             for f in os.listdir(p):
                 fp = os.path.join(p, f)
@@ -184,7 +188,9 @@ def _prune_cache(keep, maxn=12, max_units=800):
         udir = os.path.join(CACHE, "units")
         if os.path.isdir(udir):
             us = sorted(((os.path.getmtime(os.path.join(udir, f)), f) for f in os.listdir(udir)), reverse=True)
-            for _, f in us[max_units:]:
+            for mt, f in us[max_units:]:
+                if now - mt < 900:
+                    continue
                 os.unlink(os.path.join(udir, f))
     except OSError:
         pass
@@ -386,9 +392,17 @@ class Facts:
     # ---- loading
     @staticmethod
     def load(root="/repo", overlays=None):
-        path = extract(root, overlays)
-        with open(path, "rb") as fh:
-            return Facts(pickle.load(fh))
+        # a cache entry can vanish between its discovery and its use when several checks run in parallel: extract again
+        last = None
+        for _attempt in range(3):
+            try:
+                path = extract(root, overlays)
+                with open(path, "rb") as fh:
+                    return Facts(pickle.load(fh))
+            except (FileNotFoundError, EOFError, pickle.UnpicklingError, json.JSONDecodeError) as e:
+                last = e
+                time.sleep(0.5)
+        raise AnalysisBroken("facts could not be loaded after three attempts: %r" % (last,))
 
     # ---- records
     def rec(self, name):
